@@ -552,7 +552,9 @@ def if_chain(node):
     out = []
     while True:
         out.append((node.test, node.body))
-        if len(node.orelse) == 1 and isinstance(node.orelse[0], ast.If):
+        if len(node.orelse) == 1 and isinstance(node.orelse[0], ast.If) and \
+                getattr(node.orelse[0], 'col_offset', None) == getattr(node, 'col_offset', None):
+            # a real `elif` (same column); `else:` + nested `if` is an else branch
             node = node.orelse[0]
             continue
         if node.orelse:
